@@ -62,6 +62,9 @@ ORIG_EXPECT = [
     ("C10", "R10.11", "get_object_mtime"), ("C10", "R10.12", "PackBasedObjectStore.__iter__"), ("C10", "R10.12", "_iter_loose_objects"),
     ("C14", "R14.9", "get_tree_objects"), ("C14", "R14.9", "get_reachable_commits"), ("C14", "R14.10", "build_reachability_bitmap"),
     ("C14", "R14.11", "get_peeled"), ("C14", "R14.11", "add_packed_refs"), ("C14", "R14.11", "get_packed_refs"),
+    ("C14", "R14.12", "generate_commit_graph"), ("C16", "R16.12", "pack_refs"), ("C14", "R14.13", "pack_refs"), ("C13", "R13.10", "independent"),
+    ("C13", "R13.11", "update_shallow"), ("C08", "R08.9", "locked_ref.__exit__"), ("C04", "R04.3", "_complete_pack"),
+    ("C16", "R16.13", "set_symbolic_ref"), ("C16", "R16.13", "set_if_equals"), ("C16", "R16.13", "add_if_new"),
     ("C17", "R17.10", "apply_patches"), ("C17", "R17.10", "_apply_rename_or_copy"), ("C17", "R17.10", "apply_included_paths"),
     ("C14", "R14.6", "_combine_commit_bitmaps"), ("C14", "R14.6", "GraphTraversalReachability.get_reachable_objects"),
     ("C13", "R13.3", "_find_lcas"), ("C20", "R20.5", "_escape_value"), ("C06", "R06.5", "DiskRefsContainer.set_if_equals"),
